@@ -2,6 +2,7 @@ SPECIFICATION GenSpec
 CONSTANTS
   Reqs <- Reqs3
   Dups = {}
+  FailIdx = {}
   RegisterFirst = TRUE
 INVARIANTS NoSpurious MatchOnce NoLoss Emit
 CHECK_DEADLOCK FALSE
